@@ -132,7 +132,7 @@ Lemma draw_line_total line : forall g x y off, exists g', draw_line g x y off li
 Proof.
   induction line as [|ch t IH]; intros g x y off; simpl; [eauto|].
   destruct (set_total g (x + off) y [ch]) as [g1 [H1 L1]]. rewrite H1. cbn [bind].
-  destruct (IH g1 x y (off + rune_len ch)) as [g2 [H2 L2]]. exists g2. split; [exact H2|congruence].
+  destruct (IH g1 x y (off + 1)) as [g2 [H2 L2]]. exists g2. split; [exact H2|congruence].
 Qed.
 
 Lemma draw_lines_total lines : forall g x y idx, exists g', draw_lines g x y idx lines = Ok g' /\ length g' = length g.
@@ -278,7 +278,7 @@ Proof.
 Qed.
 
 (* ------------------------------------------------------------------ a drawn label is visible *)
-Definition ascii_line (label : str) : Prop := forall r, In r label -> (r < 128)%N /\ r <> 10%N.
+Definition single_line (label : str) : Prop := forall r, In r label -> r <> 10%N.
 
 Lemma split_lines_single label cur : (forall r, In r label -> r <> 10%N) -> split_lines label cur = [rev cur ++ label].
 Proof.
@@ -317,11 +317,11 @@ Proof.
 Qed.
 
 Lemma draw_line_ascii line : forall g x y off row,
-  index g y = Ok row -> 0 <= x + off -> x + off + len line <= len row -> ascii_line line ->
+  index g y = Ok row -> 0 <= x + off -> x + off + len line <= len row ->
   exists g', draw_line g x y off line = Ok g' /\ length g' = length g /\
     index g' y = Ok (firstn (Z.to_nat (x + off)) row ++ map (fun r => [r]) line ++ skipn (Z.to_nat (x + off + len line)) row).
 Proof.
-  induction line as [|ch t IH]; intros g x y off row Hr H0 H1 Ha.
+  induction line as [|ch t IH]; intros g x y off row Hr H0 H1.
   - exists g. simpl. split; [reflexivity|]. split; [reflexivity|].
     unfold len. simpl. rewrite Z.add_0_r. rewrite firstn_skipn. exact Hr.
   - simpl draw_line. unfold len in H1. simpl length in H1.
@@ -334,12 +334,8 @@ Proof.
     set (g1 := upd_nat g (Z.to_nat y) row1).
     assert (R1 : index g1 y = Ok row1) by (apply index_upd_same; exact Hy).
     assert (L1 : len row1 = len row) by (unfold len, row1; rewrite upd_nat_length; reflexivity).
-    assert (Hch : rune_len ch = 1).
-    { unfold rune_len. destruct (Ha ch (or_introl eq_refl)) as [Hc _]. apply N.ltb_lt in Hc. rewrite Hc. reflexivity. }
-    rewrite Hch.
     destruct (IH g1 x y (off + 1) row1 R1) as [g2 [H2 [L2 I2]]]; try lia.
     { unfold len in *. lia. }
-    { intros r I. apply Ha. right. exact I. }
     exists g2. split; [exact H2|]. split; [unfold g1 in L2; rewrite upd_nat_length in L2; exact L2|].
     rewrite I2. f_equal.
     unfold row1. rewrite upd_nat_split by (unfold len in *; lia).
@@ -368,7 +364,7 @@ Lemma concat_singletons (l : str) : concat (map (fun r => [r]) l) = l.
 Proof. induction l as [|a t IH]; simpl; [reflexivity|]. rewrite IH. reflexivity. Qed.
 
 Lemma draw_label_visible g x y label row :
-  index g y = Ok row -> 0 <= x < len row -> x + len label <= len row -> ascii_line label ->
+  index g y = Ok row -> 0 <= x < len row -> x + len label <= len row -> single_line label ->
   exists g' row', draw_label g x y label = Ok g' /\ index g' y = Ok row' /\ sublist_b label (concat row') = true.
 Proof.
   intros Hr Hx Hl Ha. unfold draw_label.
